@@ -74,7 +74,7 @@ def make_packs(cases, macroset=None):
     uid = 1000
     for mode, cs in bymode.items():
         for i in range(0, len(cs), PACK):
-            pk = st.Pack("p_%s_%d.rs" % (mode[0], i // PACK), bom=((i // PACK) % 4 == 1))
+            pk = st.Pack("p_%s_%d.rs" % (mode[0], i // PACK), bom=((i // PACK) % 4 == 1), crlf=((i // PACK) % 3 == 2))
             for c in cs[i:i + PACK]:
                 uid += 1
                 pk.add(st.render_case(c, uid, macroset=macroset))
@@ -103,7 +103,7 @@ def solo_packs(cases, n, macroset=None, seed_val=0):
         cur = []
         for j, i in enumerate(sorted(chosen)):
             uid += 1
-            pk = st.Pack("solo_%s_%d.rs" % (mode[0], j), bom=(j % 7 == 3))
+            pk = st.Pack("solo_%s_%d.rs" % (mode[0], j), bom=(j % 7 == 3), crlf=(j % 5 == 1))
             pk.add(st.render_case(cs[i], uid, macroset=macroset))
             pk.finish()
             cur.append(pk)
@@ -115,7 +115,8 @@ def solo_packs(cases, n, macroset=None, seed_val=0):
     return groups
 
 
-def run_cases(binary, cases, v, props, label, sigextra=None, packs=None, relabel=None, macros=None, solo=None, macroset=None):
+def run_cases(binary, cases, v, props, label, sigextra=None, packs=None, relabel=None, macros=None, solo=None, macroset=None,
+              groups_extra=None):
     """Render, pack (per mode), execute, compare. Registers violations tagged with a property in `props`.
     Besides the packed files (many statements per file) a sample of the cases is run one statement per file."""
     packs_all = packs if packs is not None else make_packs(cases)
@@ -125,6 +126,8 @@ def run_cases(binary, cases, v, props, label, sigextra=None, packs=None, relabel
             solo = 400 if v.tier != "thorough" else 3000
         if solo:
             groups += solo_packs(cases, solo, macroset=macroset, seed_val=common.seed())
+    if groups_extra:
+        groups += groups_extra
     jobs = [(binary, pks, structured, macros) for pks, structured in groups]
     procs = max(2, min(common.NCPU - 2, 14))
     if len(jobs) > 2:
@@ -268,6 +271,12 @@ def reftoken_cases(v, tier):
         text = "".join(SYM.get(c, c) for c in t["w"])
         cases.append({"s": base, "mode": "unstructured", "msgtext": text, "outcome": "hasref" if t["valid"] else "missing",
                       "place": "message_start", "sep": "msg", "w": t["w"]})
+    # the same strings under a no-kvp directive (which has no meaning in unstructured mode) and under an ignore directive
+    for i, c in enumerate(list(cases)):
+        if i % 5 == 0:
+            cases.append(dict(c, s=dict(base, dir="nokvp")))
+        elif i % 25 == 1:
+            cases.append(dict(c, s=dict(base, dir="ignore"), outcome="ignored", place="nowhere"))
     return cases
 
 
@@ -327,8 +336,26 @@ def c14(tier):
                 uid = st.render_directive_case(pk, c, uid)
             pk.finish()
             packs.append((pk, mode == "structured"))
+    # a sample of the cases alone in a file of its own (a file whose only directive is spelled in upper case, ...)
+    solo_groups = []
+    rnd = random.Random(common.seed() + 14)
+    for mode in ("structured", "unstructured"):
+        cs = [c for c in cases if c["mode"] == mode and any(k in st.DIR_LINES for k in c["lines"])]
+        rnd.shuffle(cs)
+        cur = []
+        for j, c in enumerate(cs[:(1500 if tier == "thorough" else 450)]):
+            pk = st.Pack("solo_d_%s_%d.rs" % (mode[0], j), crlf=(j % 5 == 1))
+            uid = st.render_directive_case(pk, c, uid)
+            pk.finish()
+            cur.append(pk)
+            if len(cur) == 150:
+                solo_groups.append((cur, mode == "structured"))
+                cur = []
+        if cur:
+            solo_groups.append((cur, mode == "structured"))
     # in these files every statement is governed by the directive placement rules: any mismatch speaks about C14
-    run_cases(binary, None, v, {"C14"}, "directives", packs=packs, relabel=lambda prop, r, text: "C14" if r is not None else prop)
+    run_cases(binary, None, v, {"C14"}, "directives", packs=packs, relabel=lambda prop, r, text: "C14" if r is not None else prop,
+              groups_extra=solo_groups)
     # the statement-level family with directives on statements that have targets and key-values
     cases2 = [c for c in tlc_cases(v, "intended/StmtKv.cfg") if c["s"]["dir"] != "none"]
     run_cases(binary, cases2, v, {"C14"}, "directives-kv")
@@ -440,6 +467,13 @@ def c03(tier):
         tree = {"big.rs": [S(10000 + i, ref=(5 if i % 7 == 3 else None)) for i in range(n)], "zero.rs": []}
         sc = rl.Scenario("big-%d" % n, tree, lock=100, structured=structured, crlf=crlf, pad=50000)
         rl.planned_runs(binary, sc, [[("edit", ""), ("edit", "")]], batch, v)
+    # "an edit run changes a source file only by inserting tokens" also after an earlier run died: whatever that run left
+    # behind (scratch files; all runs of a history have the same process ID) must not leak into the files.  Kill at
+    # every scratch-file operation, then the developer removes code (shorter files), edit, check.
+    for structured in (False, True):
+        for sc in rl.small_trees(structured=structured)[:2]:
+            rl.sweep(binary, sc, "edit", ["kill_before", "kill_after"], batch, v, follow="recover",
+                     only_ops=("tmp.create", "tmp.write", "tmp.rename"))
     batch.judge(v, {"C03"})
     v.cov["rule"] = ("every Rewrite.tla case (contents of <= N units of byte width 1-4 x every set of insertion points) rendered as "
                      "statements whose literals start at those points; statement layouts incl. already-referenced ones; Hostile.tla "
@@ -490,6 +524,45 @@ def hostile_step(binary, v, props, cfg):
         v.sample({"hostile_tokens": c["f"], "tail": c["tail"], "content": hostile.render(c).decode("utf-8", "replace")})
 
 
+def deep_nesting_step(binary, v, tier):
+    """Well-formed and unclosed nesting far deeper than any alphabet sequence reaches: recursion in a parser grows with the
+    nesting depth of its input.  Each file is run next to an ordinary one that must still be processed."""
+    n = 200000
+    m = 300 if tier != "thorough" else 1000
+    files = {
+        "nest_cmt_closed.rs": "/* " * n + "x" + " */" * n + "\nfn f(){ info!(\"after\"); }\n",
+        "nest_paren_closed.rs": "fn f(){ let _ = " + "(" * n + "1" + ")" * n + "; info!(\"after\"); }\n",
+        "nest_bracket_closed.rs": "fn f(){ let _ = " + "[" * n + "1" + "]" * n + "; info!(\"after\"); }\n",
+        "nest_brace_closed.rs": "fn f()" + "{" * n + "info!(\"inner\");" + "}" * n + "\n",
+        "nest_macro_closed.rs": "fn f(){ " + "m!(" * 20000 + "1" + ")" * 20000 + "; info!(\"after\"); }\n",
+        "nest_generic_closed.rs": "type T = " + "Vec<" * 20000 + "u8" + ">" * 20000 + ";\nfn f(){ info!(\"after\"); }\n",
+        "nest_cmt_open.rs": "/* " * 3000 + "\nfn f(){ info!(\"hidden\"); }\n",
+        "nest_paren_open.rs": "fn f(){ g(" + "(" * 3000 + " info!(\"x\"); }\n",
+        "nest_info_open.rs": "fn f(){ " + "info!(k = " * m + " }\n",
+        "nest_quote_run.rs": "fn f(){ let _ = " + "\"a\" " * 50000 + "; info!(\"after\"); }\n",
+    }
+    for structured in (False, True):
+        for name, text in files.items():
+            P = bl.Project(structured=structured, tag="dn")
+            try:
+                P.write_sources({name: text, "ok.rs": 'fn g(){ info!("plain"); }\n'})
+                for check in (True, False):
+                    r = bl.run_breadlog(binary, P.config_path, check=check, tmpdir=P.tmp, shim=False, timeout=600)
+                    v.evaluated(("deep-nesting", name, structured, check))
+                    if r.exit_class in ("panic", "timeout", "signal", "killed"):
+                        v.violation({"check": "NoPanicNoHang", "family": "deep-nesting", "file": name, "mode": "check" if check else "edit"},
+                                    "C17: breadlog %s in %s mode on %s (%d bytes): %s" % (r.exit_class, "check" if check else "edit", name,
+                                                                                          len(text), r.stderr[-200:]),
+                                    {"family": "deep-nesting", "generator": name, "bytes": len(text), "head": text[:200]})
+                ok = P.read_sources().get("ok.rs", b"")
+                if b"[ref: " not in ok and b"ref = " not in ok:
+                    v.violation({"check": "OthersStillProcessed", "family": "deep-nesting", "file": name},
+                                "C17: the ordinary file next to %s was not processed" % name, {"generator": name})
+            finally:
+                P.close()
+    v.cov["deep_nesting_files"] = len(files)
+
+
 def c17(tier):
     v = Verdict("C17", tier, level="exploration")
     binary = common.build_breadlog()
@@ -498,6 +571,7 @@ def c17(tier):
     # statement families: every execution is monitored for abnormal termination
     cases = tlc_cases(v, "intended/StmtDecoy.cfg")
     run_cases(binary, cases, v, {"C17"}, "decoy")
+    deep_nesting_step(binary, v, tier)
     run_cases(binary, reftoken_cases(v, "quick"), v, {"C17"}, "reftoken", solo=0)
     run_cases(binary, tlc_cases(v, "intended/StmtKv.cfg"), v, {"C17"}, "kv", solo=0)
     # ID arithmetic at the u32 boundary and empty / huge inputs
@@ -534,18 +608,19 @@ def c15(tier):
     allids = sorted({e for c in cases for e in c["layout"]})
     single = {}
     for c in cases:
-        key = (tuple(c["exts"]), c["sd"], tuple(c["inv"]))
+        key = (tuple(c["exts"]), c["sd"], tuple(c["inv"]), c.get("tmp", "same"))
         single.setdefault(key, set())
         if len(c["layout"]) == 1:
             single[key] |= set(c["expected"])
     seen = set()
     extra = []
     for c in cases:
-        key = (tuple(c["exts"]), c["sd"], tuple(c["inv"]))
+        key = (tuple(c["exts"]), c["sd"], tuple(c["inv"]), c.get("tmp", "same"))
         if key in seen:
             continue
         seen.add(key)
-        extra.append(dict(c, layout=allids, expected=sorted(single[key])))
+        extra.append(dict(c, layout=allids, expected=sorted(single[key]),
+                          modified=([] if c.get("tmp") == "otherfs" else sorted(single[key]))))
     if tier != "thorough":
         rnd = random.Random(common.seed())
         rnd.shuffle(cases)
@@ -565,11 +640,12 @@ def c15(tier):
             oo[prop] = oo.get(prop, 0) + 1
             if prop != "C15":
                 continue
-            v.violation({"check": "Scope", "what": text[:30], "exts": ",".join(c["exts"]), "sd": c["sd"], "inv": "/".join(c["inv"])},
+            v.violation({"check": "Scope", "what": text[:30], "exts": ",".join(c["exts"]), "sd": c["sd"], "inv": "/".join(c["inv"]),
+                         "tmp": c.get("tmp", "same")},
                         "C15: %s  (layout %s, extensions %s, source_dir %s, invocation %s)" % (text, c["layout"], c["exts"], c["sd"], c["inv"]),
                         {"case": c, "observed": obs})
-    v.cov["rule"] = ("every layout of <= N optional entries from a 26-entry universe (nesting, dotted and hidden directory names, look-alike extensions and siblings, a directory named "
-                     "*.rs, symlinks to files and directories inside and outside) x 5 extension lists x 3 spellings of source_dir x 7 "
+    v.cov["rule"] = ("every layout of <= N optional entries from a 28-entry universe (nesting, dotted and hidden directory names, look-alike extensions and siblings, a directory named "
+                     "*.rs, symlinks to files and directories inside and outside) x 7 extension lists (sorted and unsorted) x 5 spellings of source_dir x TMPDIR on the same / another file system x 9 "
                      "(current directory, config path spelling) pairs, plus the whole universe at once; real directories and symlinks")
     v.cov["exhaustive"] = (tier == "thorough")
     return v.finish()
@@ -592,7 +668,21 @@ def c09(tier):
         rnd.shuffle(cs)
         # make sure the interesting classes are present whatever the seed
         must = [c for c in cs if c["s"]["target"] != "none" and c["outcome"] == "missing"][:60]
-        chosen = must + cs[:n]
+        # stratified: every combination of (layout, target or not, number of key-values, directive, message class) that
+        # occurs is represented before the rest of the budget is filled at random
+        strata = {}
+        for c in cs:
+            s1 = c["s"]
+            strata.setdefault((s1["layout"], s1["target"] != "none", len(s1["kvs"]), s1["dir"]), []).append(c)
+        per = [lst[:2] for _, lst in sorted(strata.items())]
+        chosen = must + [c for lst in per for c in lst] + cs[:n]
+        seen_ids, uniq = set(), []
+        for c in chosen:
+            k = json.dumps(c, sort_keys=True)
+            if k not in seen_ids:
+                seen_ids.add(k)
+                uniq.append(c)
+        chosen = uniq
         problems, stats = cp.run_program(binary, chosen, mode == "structured")
         v.cov["traces_validated_against_impl"] += 1
         v.cov.setdefault("programs", []).append({"mode": mode, "statements": stats.get("statements"), "edited": stats.get("edited")})
